@@ -707,6 +707,10 @@ def gen_store(pid, tier, seed, scale, rng, hists, stats):
             hists.append(sg.lazy_flood_history(rng))
             stats["lazy histories with several hundred pending actions"] += 1
     if pid in JOIN_PROPS:
+        if pid in ("C07", "C13"):
+            for _ in range((3 if q else 40) * scale):
+                hists.append(jg.hash_stress_history(rng))
+                stats["hash-map storages under parallel restricted access"] += 1
         foci = {"C06": [("join", 5), ("restrict", 1), ("changeset", 1), ("par", 1)],
                 "C07": [("par", 1)], "C13": [("restrict", 1)], "C16": [("changeset", 1)]}[pid]
         total = (360 if q else 5000) * scale
